@@ -79,6 +79,10 @@ struct C05 : public Driver {
         // fault mode: one destructive input fault applied identically to every form
         if (!selfDoc && g.chance(1, 5)) { for (auto& ff : forms.a) if (ff.str("ss") == "pi") ff["ss"] = "file";   // a fault inside the xml-stylesheet PI legitimately matters to the PI form only
             SrcFault f; f.kind = g.chance(1, 2) ? "truncate" : "flip"; bool onDoc = g.chance(1, 2); const std::string& b = onDoc ? d.xml : s.xsl; f.a = g.below(b.size()); f.b = g.below(8); Json j = f.toJson(); j["on"] = onDoc ? "doc" : "xsl"; p["fault"] = j; }
+        // the caller overrides the output encoding on the transformer (C++ layer only: the C API and the command line have other means or none);
+        // every target form must then deliver that encoding
+        { Rng go = root.fork("override-enc"); if (go.chance(1, 6)) { static const std::vector<std::string> oe = { "ISO-8859-1", "UTF-16", "US-ASCII", "UTF-8" }; p["override_enc"] = go.pick(oe);
+            for (auto& ff : forms.a) if (ff.str("layer") != "cpp") { ff["src"] = "stream"; ff["ss"] = "stream"; ff["target"] = go.chance(1, 2) ? "ostream" : "callback"; ff["layer"] = "cpp"; } } }
         p["forms"] = forms;
         return p;
     }
@@ -91,6 +95,7 @@ struct C05 : public Driver {
         if (layer == "cpp") {
             XEnv env; for (auto& kv : plan.at("resources").o) env.fs.put(kv.first, kv.second.s);
             applyParams(*env.T, params, env.manager());
+            if (plan.has("override_enc")) { env.T->setOutputEncoding(xs(plan.str("override_enc"), env.manager())); res.count("probe:output-encoding-overridden"); }
             XReq rq; rq.doc = plan.str("doc"); rq.xsl = plan.str("xsl"); rq.srcForm = f.str("src"); rq.ssForm = f.str("ss"); rq.tgtForm = tgt; rq.docFault = docF; rq.xslFault = xslF; rq.bufSize = (unsigned)f.num("buf", 512); rq.tblock = (unsigned)f.num("tblock", 1024); 
             if (plan.has("selfdoc")) {
                 // everything lives in real files of one directory; the caller names the source by its plain path or by its URL
